@@ -1,8 +1,41 @@
 (* C02 — SimpleDMRS serialisation is lossless (token level). *)
 From Coq Require Import List NArith ZArith Bool.
-From PyD Require Import Base.Str Model.Mrs Model.Iso Model.SimpleMrs Model.SimpleDmrs Proofs.SimpleMrsP Proofs.SimpleDmrsP.
+From PyD Require Import Base.Str Base.Dec Model.Mrs Model.Iso Model.SimpleMrs Model.SimpleDmrs Proofs.SimpleMrsP Proofs.SimpleDmrsP.
 Import ListNotations.
 
+(* escaping of constants and of the surface string is inverted by the decoder *)
 Theorem C02_unescape_escape : forall s, unescape (escape s) = s.
 Proof. exact unescape_escape. Qed.
 Print Assumptions C02_unescape_escape.
+
+(* decoding the encoder's token stream (any options, whatever follows the
+   closing brace) returns identifier, graph alignment and surface string,
+   top, index, every node (identifier, predicate, alignment, constant, type
+   - including u and None -, properties in order) and every link exactly;
+   suppressing properties or alignments removes exactly those *)
+Theorem C02_decode_of_encode : forall p l g rest, dmrs_wf g ->
+  dec_dmrs (enc_dmrs p l g ++ rest) = Some (proj_dmrs p l g, rest).
+Proof. exact dec_enc_dmrs. Qed.
+Print Assumptions C02_decode_of_encode.
+
+(* a node is read back whatever its alignment, type and constant *)
+Theorem C02_node_readable : forall p l n rest, norm_props (n_props n) ->
+  dec_node (Z_to_dec (n_id n)) (node_body p l n ++ rest) = Some (proj_node p l n, rest).
+Proof. exact dec_node_enc. Qed.
+Print Assumptions C02_node_readable.
+
+(* a link is read back whatever its role (present or not) and post *)
+Theorem C02_link_readable : forall s e role post rest, role <> Some [] ->
+  dec_link (Z_to_dec s) (link_body (s, e, role, post) ++ rest) = Some ((s, e, role, post), rest).
+Proof. exact dec_link_enc. Qed.
+Print Assumptions C02_link_readable.
+
+(* links that do not start at the legacy node 0 leave top and links alone *)
+Theorem C02_no_legacy_top : forall top links, Forall link_ok links -> norm_top top links = (top, links).
+Proof. exact norm_top_id. Qed.
+Print Assumptions C02_no_legacy_top.
+
+(* non-vacuity *)
+Theorem C02_hypotheses_satisfiable : dmrs_wf ex_g /\ length (enc_dmrs true true ex_g) = 54%nat.
+Proof. exact (conj ex_g_wf ex_g_len). Qed.
+Print Assumptions C02_hypotheses_satisfiable.
